@@ -1,34 +1,223 @@
 /-
 Lemmas for the text views of a diff (C03, last clause).  Statements are fixed by Props/C03.lean.
+Helpers: Lemmas/DiffTextBase.lean (the reader of `formatter.diff`, `build` inverts the preorder listing),
+Lemmas/DiffTextPre.lean (the `annet diff` view: `make_pre` only regroups the entries).
 -/
 import AnnetModel.Spec.DiffText
+import AnnetModel.Lemmas.DiffTextBase
+import AnnetModel.Lemmas.DiffTextPre
 
 namespace Annet.DiffText
-open Annet.Diff Annet.Patch
+open Annet.Rules Annet.Diff Annet.Patch
 
 /-- reading `formatter.diff(d)` back gives `d` -/
 theorem diff_text_roundtrip (f : Fmt) (d : List SItem) (hf : FmtOK f) (hd : RowsOK f d) :
     parseSigned f (diffText f d) = some d := by
-  sorry
+  simp only [parseSigned, diffText, readLines_linesList f hf 0 d hd, build_flat]
 
 /-- hence the text determines the entries -/
 theorem diff_text_injective (f : Fmt) (d1 d2 : List SItem) (hf : FmtOK f)
     (h1 : RowsOK f d1) (h2 : RowsOK f d2) (h : diffText f d1 = diffText f d2) : d1 = d2 := by
-  sorry
+  have e1 := diff_text_roundtrip f d1 hf h1
+  have e2 := diff_text_roundtrip f d2 hf h2
+  rw [h, e2] at e1
+  exact (Option.some.inj e1).symm
+
+mutual
+  theorem signedItem_stripItem : ∀ i : DItem, i.op ≠ .unchanged → ∃ x, signedItem (stripItem i) = some x
+    | .mk op row ch m, h => by
+      obtain ⟨cs, hcs⟩ := signedList_stripUnchanged ch
+      simp only [DItem.op] at h
+      cases op <;> simp [stripItem, signedItem, signOfOp, hcs] at h ⊢
+  theorem signedList_stripUnchanged : ∀ d : List DItem, ∃ s, signedList (stripUnchanged d) = some s
+    | [] => ⟨[], by simp [stripUnchanged, signedList]⟩
+    | i :: rest => by
+      obtain ⟨xs, hxs⟩ := signedList_stripUnchanged rest
+      by_cases h : i.op = .unchanged
+      · exact ⟨xs, by simp [stripUnchanged, h, hxs]⟩
+      · obtain ⟨x, hx⟩ := signedItem_stripItem i h
+        exact ⟨x :: xs, by simp [stripUnchanged, h, signedList, hx, hxs]⟩
+end
 
 /-- a stripped diff has a sign for every entry (`sign_map[flag]` never raises KeyError on it) -/
-theorem stripped_has_signs (d : List DItem) : ∃ s, signedList (stripUnchanged d) = some s := by
-  sorry
+theorem stripped_has_signs (d : List DItem) : ∃ s, signedList (stripUnchanged d) = some s :=
+  signedList_stripUnchanged d
 
 /-- formatters without marks (Huawei, Cisco, Arista, Nexus, B4com, ...): a row only has to not begin with the indent unit -/
 theorem rowOK_plain (ind row : Txt) (b : Bool) (h : ¬ ind <+: row) :
     RowOK ⟨ind, [], [], []⟩ b row := by
-  sorry
+  refine ⟨?_, ?_, ?_⟩
+  · simpa [suffixOf] using h
+  · intro hne; exact absurd rfl hne
+  · simp [suffixOf, stripBody, stripSuffix]
 
 /-- reading `gen_pre_as_diff(make_pre(d))` back gives `d`, per level as a multiset -/
 theorem pre_text_roundtrip (k : Nat) (hk : 0 < k) (d : List DItem) (s : List SItem)
     (hs : signedList d = some s) (hb : NoLeadBlank s) :
     ∃ p, parsePre k (preText (List.replicate k ' ') d) = some p ∧ SPermv p s := by
-  sorry
+  have hp : SPermv (forestPre (makePre d)) s := by
+    have := makePreAcc_spermv d s [] wfr_nil hs
+    simpa [makePre, forestPre, forestRules] using this
+  refine ⟨forestPre (makePre d), ?_, hp⟩
+  exact parsePre_preLines k hk (makePre d) ((noLeadBlank_spermv hp).mpr hb)
+
+/-! ### corollaries for concrete formatters -/
+
+/-- the Junos-like formatter: four blanks, ` {` … `}`, `;` -/
+def junosFmt : Fmt := ⟨"    ".toList, " {".toList, "}".toList, ";".toList⟩
+
+/-- the formatters without marks, indent of two blanks -/
+def plainFmt : Fmt := ⟨"  ".toList, [], [], []⟩
+
+theorem fmtOK_junos : FmtOK junosFmt := by unfold FmtOK; decide
+
+theorem fmtOK_plain : FmtOK plainFmt := by unfold FmtOK; decide
+
+/-- under the Junos-like formatter the only thing that can go wrong is a printed body that begins with the
+indent unit: the block-end test and the suffix stripping never fail (rows ending in `;` or ` {` included,
+since the reader strips at most one mark, the one the printer appended) -/
+theorem rowOK_junos_iff (b : Bool) (row : Txt) :
+    RowOK junosFmt b row ↔ ¬ junosFmt.indent <+: row ++ suffixOf junosFmt b := by
+  constructor
+  · exact fun h => h.1
+  · intro h
+    refine ⟨h, ?_, ?_⟩
+    · intro _ he
+      have := congrArg List.getLast? he
+      cases b <;> simp [junosFmt, suffixOf] at this
+    · cases b
+      · have h1 : stripSuffix junosFmt.blockBegin (row ++ junosFmt.stmtEnd) = none := by
+          simp [stripSuffix, junosFmt, List.isSuffixOf, List.isPrefixOf]
+        have h2 : stripSuffix junosFmt.stmtEnd (row ++ junosFmt.stmtEnd) = some row := by
+          simp [stripSuffix, junosFmt]
+        simp [stripBody, suffixOf, h1, h2]
+      · have h1 : stripSuffix junosFmt.blockBegin (row ++ junosFmt.blockBegin) = some row := by
+          simp [stripSuffix, junosFmt]
+        simp [stripBody, suffixOf, h1]
+
+/-- a simple sufficient condition: the row does not begin with a blank (the empty row is fine) -/
+theorem rowOK_junos (b : Bool) (row : Txt) (h : row.head? ≠ some ' ') : RowOK junosFmt b row := by
+  rw [rowOK_junos_iff]
+  cases row with
+  | nil => cases b <;> simp [junosFmt, suffixOf]
+  | cons c t =>
+    have hc : c ≠ ' ' := by simpa using h
+    simp [junosFmt, List.cons_prefix_cons, Ne.symm hc]
+
+/-! ### non-vacuity: the hypotheses of the round trip hold for concrete nested diffs -/
+
+mutual
+  theorem rowsOKItem_junos : ∀ i : SItem, NoLeadBlankItem i → RowsOKItem junosFmt i
+    | .mk _ row ch, h => by
+      simp only [NoLeadBlankItem] at h
+      simp only [RowsOKItem]
+      exact ⟨rowOK_junos _ row h.1, rowsOK_junos ch h.2⟩
+  /-- for the Junos-like formatter the hypothesis of the `annet diff` view suffices: no row begins with a blank -/
+  theorem rowsOK_junos : ∀ d : List SItem, NoLeadBlank d → RowsOK junosFmt d
+    | [], _ => by simp [RowsOK]
+    | i :: rest, h => by
+      simp only [NoLeadBlank] at h
+      simp only [RowsOK]
+      exact ⟨rowsOKItem_junos i h.1, rowsOK_junos rest h.2⟩
+end
+
+mutual
+  theorem rowsOKItem_plain : ∀ i : SItem, NoLeadBlankItem i → RowsOKItem plainFmt i
+    | .mk _ row ch, h => by
+      simp only [NoLeadBlankItem] at h
+      simp only [RowsOKItem]
+      refine ⟨rowOK_plain _ row _ ?_, rowsOK_plain ch h.2⟩
+      cases row with
+      | nil => simp
+      | cons c t =>
+        have hc : c ≠ ' ' := by simpa using h.1
+        simp [List.cons_prefix_cons, Ne.symm hc]
+  /-- likewise for the formatters without marks (indent of two blanks) -/
+  theorem rowsOK_plain : ∀ d : List SItem, NoLeadBlank d → RowsOK plainFmt d
+    | [], _ => by simp [RowsOK]
+    | i :: rest, h => by
+      simp only [NoLeadBlank] at h
+      simp only [RowsOK]
+      exact ⟨rowsOKItem_plain i h.1, rowsOK_plain rest h.2⟩
+end
+
+/-- depth 3, seven entries, all four signs; rows containing blanks, `/`, a trailing `;` and a trailing ` {` -/
+def exForest : List SItem :=
+  [ .mk .space "interfaces".toList
+      [ .mk .space "ge-0/0/0".toList [ .mk .minus "mtu 1500".toList [], .mk .plus "mtu 9000".toList [] ],
+        .mk .gt "lo0".toList [ .mk .plus "unit 0 {".toList [] ] ],
+    .mk .minus "system;".toList [] ]
+
+example : FmtOK junosFmt ∧ RowsOK junosFmt exForest := by
+  refine ⟨fmtOK_junos, rowsOK_junos _ ?_⟩
+  simp [exForest, NoLeadBlank, NoLeadBlankItem]
+
+/-- the same without the corollary: `RowOK` is decidable row by row -/
+example : RowsOK junosFmt exForest := by
+  simp only [exForest, RowsOK, RowsOKItem, RowOK, and_true]
+  decide
+
+example : FmtOK plainFmt ∧ RowsOK plainFmt exForest := by
+  refine ⟨fmtOK_plain, ?_⟩
+  simp only [exForest, RowsOK, RowsOKItem, RowOK, and_true]
+  decide
+
+example : NoLeadBlank exForest := by
+  simp [exForest, NoLeadBlank, NoLeadBlankItem]
+
+/-- what the operator sees (Junos-like), and that reading it back returns the entries -/
+example : diffText junosFmt exForest =
+    [ "  interfaces {".toList,
+      "      ge-0/0/0 {".toList,
+      "-         mtu 1500;".toList,
+      "+         mtu 9000;".toList,
+      "      }".toList,
+      ">     lo0 {".toList,
+      "+         unit 0 {;".toList,
+      ">     }".toList,
+      "  }".toList,
+      "- system;;".toList ] := by decide
+
+example : parseSigned junosFmt (diffText junosFmt exForest) = some exForest :=
+  diff_text_roundtrip junosFmt exForest fmtOK_junos (by
+    simp only [exForest, RowsOK, RowsOKItem, RowOK, and_true]; decide)
+
+example : parseSigned plainFmt (diffText plainFmt exForest) = some exForest :=
+  diff_text_roundtrip plainFmt exForest fmtOK_plain
+    (by simp [exForest, RowsOK, RowsOKItem, plainFmt, rowOK_plain])
+
+/-- the hypothesis `RowOK` is not void: a row that begins with the indent unit is read one level too deep -/
+example : ¬ RowOK plainFmt false "  x".toList := by
+  simp only [RowOK]; decide
+
+example : parseSigned plainFmt (diffText plainFmt [.mk .plus "a".toList [], .mk .plus "  x".toList []]) =
+    some [.mk .plus "a".toList [.mk .plus "x".toList []]] := by rfl
+
+/-! ### non-vacuity of the `annet diff` round trip -/
+
+def exM (raw : String) (key : List String) : PMatch := ⟨raw, key, default⟩
+
+def exDiff : List DItem :=
+  [ .mk .removed "vlan 10" [] (exM "vlan *" ["10"]),
+    .mk .affected "interface ge1" [ .mk .added "mtu 9000" [] (exM "mtu *" ["9000"]),
+                                    .mk .removed "mtu 1500" [] (exM "mtu *" ["1500"]),
+                                    .mk .moved "description x" [] (exM "description *" ["x"]) ]
+      (exM "interface *" ["ge1"]),
+    .mk .added "vlan 20" [] (exM "vlan *" ["20"]) ]
+
+def exSigned : List SItem :=
+  [ .mk .minus "vlan 10".toList [],
+    .mk .space "interface ge1".toList
+      [ .mk .plus "mtu 9000".toList [], .mk .minus "mtu 1500".toList [], .mk .gt "description x".toList [] ],
+    .mk .plus "vlan 20".toList [] ]
+
+example : signedList exDiff = some exSigned ∧ NoLeadBlank exSigned := by
+  refine ⟨by rfl, ?_⟩
+  simp [exSigned, NoLeadBlank, NoLeadBlankItem]
+
+/-- `make_pre` regroups by rule: `vlan 20` is printed before `interface ge1`; the reading is `exSigned` up to that -/
+example : (preText (List.replicate 2 ' ') exDiff) =
+    [ "- vlan 10".toList, "+ vlan 20".toList, "  interface ge1".toList, "+   mtu 9000".toList,
+      "-   mtu 1500".toList, ">   description x".toList ] := by decide
 
 end Annet.DiffText
